@@ -3,6 +3,7 @@ package transport
 // Shared E3 helpers for the transport harnesses (C05, C06, C14, C16, C18, C20).
 
 import (
+	"runtime/debug"
 	"context"
 	"fmt"
 	"os"
@@ -23,6 +24,8 @@ import (
 )
 
 func init() {
+	debug.SetMaxStack(32 << 20) // a runaway recursion in the implementation fails fast instead of growing to 1 GB
+
 	zerolog.SetGlobalLevel(zerolog.Disabled)
 }
 
